@@ -26,7 +26,7 @@ FAMS = ("qp", "qp_quartic", "rosenbrock", "exp_wall", "rastrigin", "styblinski_t
 
 def floors(tier):
     f = {"results_judged": 1500, "restart_results_judged": 500, "restart_below_checkpoint_nit": 100, "early_return_on_restart": 40,
-         "callable_stop_criteria_runs": 200, "runs_with_logger": 300, "kept_results_audited_at_the_end": 1500, "restarts_with_analytic_gradient_from_a_finite_difference_checkpoint": 40, "runs_with_objective_redefined": 150, "objective_redefined_at_a_stationary_point_of_the_old_one": 60,
+         "callable_stop_criteria_runs": 200, "runs_with_logger": 300, "restarts_with_a_scaler_over_an_unscaled_checkpoint": 100, "kept_results_audited_at_the_end": 1500, "restarts_with_analytic_gradient_from_a_finite_difference_checkpoint": 40, "runs_with_objective_redefined": 150, "objective_redefined_at_a_stationary_point_of_the_old_one": 60,
          "runs_on_domain_restricted_objective": 60, "__nontrivial__": 25}
     for k in MESSAGES:
         f["msg:" + k] = 5
@@ -63,6 +63,8 @@ def cases(tier, seed):
         restarts = []
         for _ in range(int(rng.integers(1, 3))):
             restarts.append({"dnit": int(rng.integers(-3, 3)), "raise_maxfun": bool(rng.random() < 0.5), "to_callable": bool(rng.random() < 0.6),
+                             "scaler_on_restart": float(np.exp(rng.uniform(np.log(1e-2), np.log(1e2)))) if rng.random() < 0.3 else None,
+                             "target_between": bool(rng.random() < 0.5),
                              "maxfun_slack": int(rng.integers(0, 4)),
                              "target_met": bool(rng.random() < 0.25), "maxls": int(gen.pick(rng, [1, 2, 5, 20])),
                              "cb": gen.pick(rng, [None, "never", 1])})
@@ -107,7 +109,9 @@ def judge_result(out, P, tr, cfg, nit0, n0, where, tags):
     if pg <= cfg["gtol"]:
         limits.append("pg")
     tgt = cfg.get("ftarget")
-    sc = float(cfg["scaler"]) if (cfg.get("scaler") is not None and tr.scaler_calls) else 1.0
+    # units of the returned fun: scaled once the objective has been evaluated under a scaler in this leg; a leg that returns without any
+    # evaluation hands back the values of its checkpoint, in the checkpoint's units
+    sc = float(cfg["scaler"]) if (cfg.get("scaler") is not None and tr.scaler_calls and (nit0 is None or tr.nf > 0)) else 1.0
     fun_user = r["fun"] / sc  # the target is expressed in the user's (unscaled) units
     if tgt is not None and fun_user <= tgt:
         limits.append("target")
@@ -283,6 +287,10 @@ def run(spec):
         c2 = dict(cfg)
         if c2.pop("scaler", None) is not None:
             break  # restart chains are explored without scaler (see C03's known finding about scaled checkpoints)
+        if rs.get("scaler_on_restart") and k == 0:
+            # ... except for a scaler introduced on the first restart leg, over an unscaled checkpoint (this leg then ends the chain)
+            c2["scaler"] = float(rs["scaler_on_restart"])
+            out.count("restarts_with_a_scaler_over_an_unscaled_checkpoint")
         c2["maxiter"] = max(0, int(ck.nit) + rs["dnit"])
         if rs["raise_maxfun"]:
             c2["maxfun"] = int(ck.nfev) + int(cfg["maxfun"]) + 3
@@ -298,6 +306,10 @@ def run(spec):
             out.count("restarts_with_analytic_gradient_from_a_finite_difference_checkpoint")
         if rs["target_met"] and np.isfinite(ck.fun):
             c2["ftarget"] = float(ck.fun) + 1.0
+        if c2.get("scaler") is not None and rs.get("target_between") and np.isfinite(ck.fun) and ck.fun != 0:
+            # a target between f/s and f: met at the checkpoint only if the units are confused
+            c2["ftarget"] = 0.5 * (float(ck.fun) + float(ck.fun) / c2["scaler"])
+            c2["ftarget_callable"] = False
         nit0, n0 = int(ck.nit), int(ck.nfev)
         ck_msg = ck.message
         # the user passes the SAME callable objects again, now returning this restart's values
